@@ -135,6 +135,9 @@ def run(tier, replay=None):
     all_pairs = hc.pairs()
     wok = hc.wrapper_pairs()
     rep.notes["dispatcher_binding_under_family_preset"] = {"%s/%s" % k: v for k, v in wok.items() if v != "ok"} or "every family is bound under its preset"
+    bad = {"%s/%s" % (f["algo"], f["fam"]): f["why"] for f in hc.cfg()["fams"] if not f["understood"]}
+    if bad:
+        rep.notes["lane_configuration_not_understood"] = dict(bad, _consequence="header bound MAX_LANES used for these families; obligation gen_hfams_ok reported broken")
     if replay:
         failures, wb = hc.run_engine(rep, pid, [hc.replay_case(replay)], "01", dist, "replay", shards=1)
         if lanemgr:
